@@ -167,7 +167,7 @@ CHECKS = {
         "timeout": {"quick": 1200, "thorough": 14000},
     },
     "C07": {
-        "scenarios": [("C07-registry", "vsim"), ("C07-hook", "vsim"), ("C07-e2e", "vsim"), ("C07-reload", "vreal"), ("C07-reload", "vrace", 0.3), ("C01-tcp", "vsim", 0.5), ("C02-udp", "vsim", 0.5)],
+        "scenarios": [("C07-registry", "vsim"), ("C07-hook", "vsim"), ("C07-hooke2e", "vsim"), ("C07-e2e", "vsim"), ("C07-reload", "vreal"), ("C07-reload", "vrace", 0.3), ("C01-tcp", "vsim", 0.5), ("C02-udp", "vsim", 0.5)],
         "rides_on": ["C07"],
         "races": True,
         "rule": "(a) registry histories of 400 operations: Discover with segments crafted by the reference codec for every "
